@@ -63,11 +63,10 @@ Example idempotent_for_nan :
   | _ => false end = true.
 Proof. vm_compute. reflexivity. Qed.
 
-(* "Never returns a schema that accepts nothing or cannot be generated from" is decided per
-   run on /repo (harness/props/c12.py): when every sub-schema of S generates accepted values,
-   so must S % v.  In the model it follows from C04's subst_pins/C05's subst_narrows only
-   together with C01's [sat], which substitution need not preserve for unsatisfiable optional
-   members (DESIGN 6, C12). *)
+(* "Never returns a schema that accepts nothing or cannot be generated from": proved at the end of
+   this file (subst_preserves_sat, subst_result_can_be_generated_from) under [hsat], a hypothesis on the
+   ORIGINAL schema about what substitution leaves untouched; on /repo the clause is also decided per run
+   (harness/props/c12.py). *)
 
 (* non-vacuity *)
 Example ex_err : substitute (SInt None None None) (VStr [97]) = Err SubstErr.
@@ -80,3 +79,106 @@ Example ex_idempotent_instance :
   let v := VList [VStr [97]; VInt 5%Z] in
   match substitute s v with Ok s' => match substitute s' v with Ok s'' => true | _ => false end | _ => false end = true.
 Proof. vm_compute. reflexivity. Qed.
+
+(* ===== to append to /verif/coq/props/C12.v =====
+   (replaces the closing remark "Never returns a schema that accepts nothing or cannot be
+   generated from is decided per run ... which substitution need not preserve for
+   unsatisfiable optional members": that gap is now closed by [hsat], theories/HSat.v.)
+   Statements only; proofs are in proofs/SubstSat.v. *)
+From Coq Require Import Permutation.
+Require Import D42.PyRandom D42.Generate D42.Sat D42.SatB D42.HSat.
+Require Import D42P.SatBSpec D42P.SubstSat.
+Open Scope N_scope.
+
+(* The result of substituting a plain value into a well-formed schema is well-formed. *)
+Theorem subst_result_wf :
+  forall s, wf s = true -> forall v s', plain v = true -> vwf v = true ->
+            substitute s v = Ok s' -> wf s' = true.
+Proof. exact subst_wf_lemma. Qed.
+Print Assumptions subst_result_wf.
+
+(* Substitution of a plain value never returns a schema that cannot be generated from:
+   the result is hereditarily satisfiable within the generator's reach ([sat], the
+   hypothesis of C01's theorem) whenever the ORIGINAL schema is [hsat] (theories/HSat.v):
+   what substitution leaves untouched - a declared float value, the members a dict value
+   does not mention, optional ones included below the top - is satisfiable.  Everything
+   substitution pins needs no hypothesis: the value that passed validation is its own witness
+   (in particular a str with a pattern gets a fixed value: [re_total] is not needed). *)
+Theorem subst_preserves_sat :
+  forall w s, wf s = true -> hsat w s ->
+  forall v s', plain v = true -> vwf v = true -> substitute s v = Ok s' -> sat w s'.
+Proof. exact subst_sat_lemma. Qed.
+Print Assumptions subst_preserves_sat.
+
+(* ... hence (with C01's gen_sound_lemma) the generator returns a conforming value from the
+   result, on EVERY tape *)
+Theorem subst_result_can_be_generated_from :
+  forall w s v s', world_ok w -> wf s = true -> hsat w s -> plain v = true -> vwf v = true ->
+  substitute s v = Ok s' ->
+  forall t, exists g t', gen w s' t = Ok (g, t') /\ conforms s' g.
+Proof. exact subst_result_generates. Qed.
+Print Assumptions subst_result_can_be_generated_from.
+
+(* [hsat] is decidable ([hsatb]); without optional dict members [sat] itself is enough *)
+Theorem hsatb_sound : forall w s, wf s = true -> hsatb w s = true -> hsat w s.
+Proof. exact hsatb_sound_lemma. Qed.
+Theorem subst_preserves_sat_without_optional :
+  forall w s, wf s = true -> opt_free s = true -> sat w s ->
+  forall v s', plain v = true -> vwf v = true -> substitute s v = Ok s' -> sat w s'.
+Proof. exact subst_sat_opt_free. Qed.
+Print Assumptions subst_preserves_sat_without_optional.
+
+(* ---- non-vacuity ---- *)
+Definition w12 : world := mk_world 0x886313e13b8a43729b900c9aee199e5d 0 738000 (fun l => l).
+Lemma w12_ok : world_ok w12.
+Proof. split; [vm_compute; reflexivity | intros l; apply Permutation_refl]. Qed.
+
+(* {"a": int.min(0).max(10), optional "b": str.regex("[a-c]+") , "c": [int, ...]} % {"a": 5, "c": [1, 2]} *)
+Definition ex12_s : schema :=
+  SDict (Some [ (KStr [97], Some (SInt None (Some (IInt 0%Z)) (Some (IInt 10%Z))), false);
+                (KStr [98], Some (SStr None None None None None None
+                                       (Some ([], [RRepeat false 1 None [RIn false [CRange 97 99]]]))), true);
+                (KStr [99], Some (SList (Some [Some (SInt None None None); None]) None None None None), false) ]).
+Definition ex12_v : value :=
+  VDict [ (KStr [97], VInt 5%Z); (KStr [99], VList [VInt 1%Z; VInt 2%Z]) ].
+
+Example ex12_generates :
+  exists s', substitute ex12_s ex12_v = Ok s' /\
+             forall t, exists g t', gen w12 s' t = Ok (g, t') /\ conforms s' g.
+Proof.
+  destruct (substitute ex12_s ex12_v) as [s'| |] eqn:E; try (vm_compute in E; discriminate).
+  exists s'. split; [reflexivity|].
+  apply (subst_result_can_be_generated_from w12 ex12_s ex12_v s' w12_ok); auto;
+    try (vm_compute; reflexivity).
+  apply hsatb_sound; vm_compute; reflexivity.
+Qed.
+Example ex12_generated_value :
+  match substitute ex12_s ex12_v with
+  | Ok s' => match gen w12 s' [] with Ok (g, _) => verdict s' g && verdict ex12_s g | _ => false end
+  | _ => false end = true.
+Proof. vm_compute. reflexivity. Qed.
+
+(* The hypothesis is needed, and [sat] of the original is NOT enough (this is why the clause was
+   only decided per run before): an OPTIONAL member may hide an unsatisfiable required
+   sub-member; mentioning the member makes it required and keeps the sub-member.
+   {optional "a": {"b": int.min(1).max(0), "c": int}} % {"a": {"c": 1}} *)
+Definition ex12_bad : schema :=
+  SDict (Some [ (KStr [97],
+                 Some (SDict (Some [ (KStr [98], Some (SInt None (Some (IInt 1%Z)) (Some (IInt 0%Z))), false);
+                                     (KStr [99], Some (SInt None None None), false) ])), true) ]).
+Definition ex12_bad_v : value := VDict [ (KStr [97], VDict [ (KStr [99], VInt 1%Z) ]) ].
+Example sat_alone_is_not_preserved :
+  wf ex12_bad = true /\ sat w12 ex12_bad /\ hsatb w12 ex12_bad = false /\
+  exists s', substitute ex12_bad ex12_bad_v = Ok s' /\ ~ sat w12 s' /\
+             forall t, exists e, gen w12 s' t = Raise e.
+Proof.
+  split; [vm_compute; reflexivity|].
+  split; [apply satb_sound_lemma; vm_compute; reflexivity|].
+  split; [vm_compute; reflexivity|].
+  destruct (substitute ex12_bad ex12_bad_v) as [s'| |] eqn:E; try (vm_compute in E; discriminate).
+  exists s'. split; [reflexivity|].
+  vm_compute in E. inversion E; subst s'; clear E.
+  split.
+  - intros H. apply satb_complete_lemma in H; [vm_compute in H; discriminate | vm_compute; reflexivity].
+  - intros t. eexists. vm_compute. reflexivity.
+Qed.
